@@ -15,7 +15,7 @@ func init() { Registry["C16"] = runC16 }
 
 func runC16(p *core.Prog, r *core.Report) {
 	c := &ctx{p, r}
-	r.Explain = "Hash framing and commitments: (R16.1) in each of SHA512_256, SHA512_256i, SHA512_256i_TAGGED the only data written to the hash state is one buffer built as LE64(count of inputs) followed, in one loop over all inputs in order with no skip edge, by element bytes ‖ delimiter constant ‖ LE64(len of that same element's bytes) — the length operand is value-identical to the bytes appended in the same iteration; (R16.2) the three loop bodies agree up to the element conversion; (R16.3) the tagged variant writes SHA512_256(tag) twice before the buffer; (R16.4) commitment layout: D = [r, secrets…] in order, C = SHA512_256i(D…), r is a fresh HashLength-bit sample, Verify recomputes the hash over exactly D and rejects on inequality, DeCommit returns D[1:] only on Verify's true edge; (R16.5) Secrets() emits len(part) then the part for every part after the cap guards, ParseSecrets' slice expression is dominated by bound guards. With this layout a pre-image is cnt ‖ (b_i ‖ '$' ‖ len(b_i))*, which is uniquely decodable from the end, so the map from input sequences to pre-images is injective (paper argument, DESIGN §4.16)."
+	r.Explain = "Hash framing and commitments: (R16.1) in each of SHA512_256, SHA512_256i, SHA512_256i_TAGGED the only data written to the hash state is one buffer built as LE64(count of inputs) followed, in one loop over all inputs in order with no skip edge, by element bytes ‖ delimiter constant ‖ LE64(len of that same element's bytes) — the length operand is value-identical to the bytes appended in the same iteration; (R16.2) the three loop bodies agree up to the element conversion; (R16.3) the tagged variant writes SHA512_256(tag) twice before the buffer; (R16.4) commitment layout: D = [r, secrets…] in order, C = SHA512_256i(D…), r is a fresh HashLength-bit sample, Verify recomputes the hash over exactly D and rejects on inequality, DeCommit returns D[1:] only on Verify's true edge; (R16.5) AddPart appends exactly the part handed in on every path, Secrets() emits len(part) then the part for every part after the cap guards, ParseSecrets' slice expression is dominated by bound guards, an input that ends right after a length prefix yields the (empty) part or an error, and an input of one element reaches the parsing loop; the framing of R16.1 may be factored into private helpers and is read through them. With this layout a pre-image is cnt ‖ (b_i ‖ '$' ‖ len(b_i))*, which is uniquely decodable from the end, so the map from input sequences to pre-images is injective (paper argument, DESIGN §4.16)."
 	r.Undec = "collision resistance of SHA-512/256; that big.Int.Bytes() forgets the sign and that nil and 0 coincide in the tagged variant (inputs are assumed non-negative)."
 	r.Assume = []string{"encoding/binary.LittleEndian.PutUint64 writes the 8-byte little-endian encoding of its argument", "hash.Hash.Write appends to the hashed stream"}
 	var forms []string
